@@ -107,8 +107,8 @@ theorem C08_parsed_integers_in_range (s : Bytes) (v : Int) (h : Parser.atoi s = 
 `Jmes/GeneratedSlice.lean` is the translation of util.go's `capSlice` and `computeSliceParams`
 into Lean, produced from /repo's working tree by `tools/gotolean` on every run.  The next four
 theorems are about THAT text, not about the hand-written model: whatever the Go functions say
-now is what is proved to be Python's slice arithmetic (the two loops of `slice` stay
-hand-modelled and are tied by the correspondence streams). -/
+now is what is proved to be Python's slice arithmetic; the two loops of `slice` are translated by
+pattern (see tools/gotolean) and proved equal to the model's loops. -/
 
 /-- The translated `capSlice` is the model's, on every length of a Go slice and all int64 operands. -/
 theorem C08_translated_capSlice (length actual step : Int) (hl0 : 0 ≤ length) (hl : InRange length)
@@ -126,12 +126,20 @@ theorem C08_translated_computeSliceParams (length : Int) (a b c : Option Int) (h
 /-- Main theorem again, for the translated arithmetic followed by the loops: Python's slice. -/
 theorem C08_translated_slice_is_python_slice {α} (xs : List α) (a b c : Option Int) (hlen : InRange xs.length)
     (ha : OptInRange a) (hb : OptInRange b) (hc : OptInRange c) (h0 : c ≠ some 0) :
-    GenSlice.slice xs a b c = .ok ((pySlice xs.length a b (c.getD 1)).filterMap (getIdx xs)) :=
+    GenSlice.slice (xs.length + 1) xs [GenSlice.param a, GenSlice.param b, GenSlice.param c]
+      = .ok ((pySlice xs.length a b (c.getD 1)).filterMap (getIdx xs)) :=
   gen_slice_eq_pySlice xs a b c hlen ha hb hc h0
 
+/-- The two translated loops are the model's loops (so what is proved about `Slice.slice` is proved about them). -/
+theorem C08_translated_loops {α} (xs : List α) (start stop step : Int) (fuel : Nat) (i : Int) :
+    GenSlice.sliceLoop1 xs start stop step fuel i = Slice.loopUp xs stop step fuel i ∧
+    GenSlice.sliceLoop2 xs start stop step fuel i = Slice.loopDown xs stop step fuel i :=
+  ⟨gen_loop1_eq xs start stop step fuel i, gen_loop2_eq xs start stop step fuel i⟩
+
 theorem C08_translated_step_zero_is_error {α} (xs : List α) (a b : Option Int) (hlen : InRange xs.length)
-    (ha : OptInRange a) (hb : OptInRange b) : ∃ e, GenSlice.slice xs a b (some 0) = .err e :=
-  gen_slice_step_zero xs a b hlen ha hb
+    (ha : OptInRange a) (hb : OptInRange b) (fuel : Nat) :
+    ∃ e, GenSlice.slice fuel xs [GenSlice.param a, GenSlice.param b, GenSlice.param (some 0)] = .err e :=
+  gen_slice_step_zero xs a b hlen ha hb fuel
 
 /-! Non-vacuity: concrete instances of the hypotheses and of the statement. -/
 
@@ -144,7 +152,7 @@ example : pySlice 5 none (some (-6)) (-1) = [4, 3, 2, 1, 0] := by decide
 example : pySlice 4 none (some (-4)) (-1) = [3, 2, 1] := by decide
 example : pySlice 3 (some 1) none 9223372036854775807 = [1] := by decide
 example : Slice.slice [10, 11, 12, 13] (some (-9223372036854775808)) none none = .ok [10, 11, 12, 13] := by rfl
-example : GenSlice.slice [10, 11, 12, 13] (some (-9223372036854775808)) none (some (-2)) = .ok ([] : List Nat) := by rfl
-example : GenSlice.slice [10, 11, 12, 13] none (some (-9223372036854775808)) (some (-2)) = .ok [13, 11] := by rfl
+example : GenSlice.slice 5 [10, 11, 12, 13] [GenSlice.param (some (-9223372036854775808)), GenSlice.param none, GenSlice.param (some (-2))] = .ok ([] : List Nat) := by rfl
+example : GenSlice.slice 5 [10, 11, 12, 13] [GenSlice.param none, GenSlice.param (some (-9223372036854775808)), GenSlice.param (some (-2))] = .ok [13, 11] := by rfl
 
 end Jmes.Props
